@@ -34,7 +34,7 @@ def run(out, drv, info):
                        'a file version stands for its bytes: that restoring a recorded version yields exactly those bytes and that listed sizes are true sizes is C01',
                        'bytes_to_human rounding is presentation: sizes are compared after parsing to (2-decimal value, unit)',
                        'WF: every stored object is what its name says (C04); CPython re / datetime / json modelled, not verified']
-    n_worlds, n_ops = (160, 12) if quick else (1600, 16)
+    n_worlds, n_ops = (260, 12) if quick else (1600, 16)
     changed = sorted(k for k in info.get('extract_notes', {}) if k.startswith(('select.', 'section:06_access')))
     if changed:      # the selection / sorting code is no longer in the recognised shape: not a broken tie, but look harder (DESIGN §3.1)
         n_worlds *= 2
